@@ -91,6 +91,20 @@ check("C09",
       "TLA+ spec (GenoStats.tla) model-checked by TLC + TLC validation of recorded statistics of the real classes",
       "DESIGN.md C09")
 
+check("C10",
+      "TLC explores every step between populations (<=2, thorough <=3 individuals over 2 loci, effects in {-1,0,1}) that "
+      "Mendelian transmission through up to two generations allows and checks: limits bracket every individual and every "
+      "reachable descendant, limits equal the common value in a fixed population, and the action properties 'upper "
+      "limit never increases', 'lower limit never decreases', 'lost alleles never reappear'. Closed breeding programmes "
+      "run on the real code (all seven mating protocols with real generators, truncation/random/very strong selection, "
+      "population sizes incl. 49/98/103/107/161/250, boundary loci with a single remaining copy, 1-3 traits, integer "
+      "intercepts, usl/lsl called on matrices and on raw arrays, scaled and unscaled) are validated generation by "
+      "generation by TLC, which re-derives the limits from the logged allele counts.",
+      "Integer effects/intercepts so every reported value is an integer (lattice residual <= 1e-6); allele counts are "
+      "projected from the raw genotype arrays by the harness.",
+      "TLA+ spec (SelLimits.tla) model-checked by TLC (invariants + action properties) + TLC validation of recorded breeding histories",
+      "DESIGN.md C10")
+
 def build():
     checks = []
     for pid in sorted(CHECKS):
